@@ -4,6 +4,8 @@ package scen
 
 // C14 scenarios for the sweeping provider and its wrappers:
 // "sweeping-provider" (router stub + parking sender + parking datastores),
+// "sweeping-provider-tight" (the same with more recipients per batch than the
+// provider serves at a time, see c14_provider_tight.go),
 // "buffered-provider" (buffered.New around a sweeping provider) and
 // "dual-provider" (provider/dual.New on a real dual.DHT).
 
@@ -33,12 +35,12 @@ import (
 func init() {
 	stub := []string{"router (stub: every GetClosestPeers parks)", "pb.MessageSender (level A: every ADD_PROVIDER parks)", "datastores (simds: operations park)", "host (simhost)", "crypto/rand (constant per run)"}
 	faults := append([]string{"fault_rpc_error", "fault_gcp_error", "probe_close_provide_inflight", "probe_close_gcp_parked", "probe_close_offline", "probe_close_online", "probe_cfg_own_keystore", "probe_cfg_no_schedule", "probe_cfg_no_host"}, c14CommonFaults...)
-	sim.Register(&sim.Scenario{Prop: "C14", Name: "sweeping-provider", Weight: 3, Run: func(s *sim.Sim) { runC14Provider(s, false) },
+	sim.Register(&sim.Scenario{Prop: "C14", Name: "sweeping-provider", Weight: 3, Run: func(s *sim.Sim) { runC14Provider(s, false, false) },
 		Real:   []string{"provider.New / SweepingProvider.Close (done channel, wait-group guard lock, worker pool closed before waiting, cleanup functions)", "connectivity checker", "provide/reprovide loops, batch and individual provides in flight", "keystore (default or caller-supplied)"},
 		Stub:   stub,
 		Faults: faults,
 	})
-	sim.Register(&sim.Scenario{Prop: "C14", Name: "buffered-provider", Weight: 2, Run: func(s *sim.Sim) { runC14Provider(s, true) },
+	sim.Register(&sim.Scenario{Prop: "C14", Name: "buffered-provider", Weight: 2, Run: func(s *sim.Sim) { runC14Provider(s, true, false) },
 		Real:   []string{"buffered.New / worker / Close (queue closed, wrapped provider closed, worker joined)", "go-dsqueue", "provider.SweepingProvider underneath"},
 		Stub:   stub,
 		Faults: append([]string{"probe_close_batch_in_worker"}, faults...),
@@ -113,15 +115,30 @@ func c14DrawProvCfg(s *sim.Sim) c14ProvCfg {
 	return c
 }
 
-func runC14Provider(s *sim.Sim, buffer bool) {
+// runC14Provider: tight selects the "sweeping-provider-tight" variant (see
+// c14_provider_tight.go): more recipients per batch than the provider may
+// serve at a time.
+func runC14Provider(s *sim.Sim, buffer, tight bool) {
 	s.MaxSteps = 900
 	defer c14ConstRand(s)()
 	name := "sweeping-provider"
 	if buffer {
 		name = "buffered-provider"
 	}
+	if tight {
+		name = "sweeping-provider-tight"
+	}
 	cfg := c14DrawProvCfg(s)
 	n := s.Range("peers", 1, 5)
+	conns := 8 // >= peers: the per-peer jobs start together
+	if tight {
+		// every peer is a recipient of every key, and only conns of them are
+		// served at a time; no failing sends (see c14AnonSender)
+		n = s.Range("tight-peers", 3, 7)
+		cfg.repl = n
+		cfg.rpcFault = 0
+		conns = s.Range("tight-conns", 1, 2)
+	}
 	u := simnet.NewUniverse(uint64(s.Draw("universe", 1<<16)), n)
 	h := simhost.New(s, u.Self.ID, u.Self.Addrs, u.Name)
 	w := &c14World{s: s, u: u, hosts: []*simhost.Host{h}, rpcFault: cfg.rpcFault}
@@ -130,7 +147,12 @@ func runC14Provider(s *sim.Sim, buffer bool) {
 		known[string(c14MH(i))] = fmt.Sprintf("k%d", i)
 	}
 	rt := &c14Router{s: s, u: u, known: known}
-	snd := &simnet.Sender{S: s, U: u}
+	var snd pb.MessageSender = &simnet.Sender{S: s, U: u}
+	var anon *c14AnonSender
+	if tight {
+		anon = &c14AnonSender{s: s}
+		snd = anon
+	}
 	var dss []*simds.DS
 	mk := func(n string) *simds.DS {
 		d := simds.New(s, n)
@@ -190,7 +212,7 @@ func runC14Provider(s *sim.Sim, buffer bool) {
 		provider.WithMaxWorkers(cfg.workers),
 		provider.WithDedicatedPeriodicWorkers(cfg.per),
 		provider.WithDedicatedBurstWorkers(cfg.burst),
-		provider.WithMaxProvideConnsPerWorker(8), // >= peers: the per-peer jobs start together
+		provider.WithMaxProvideConnsPerWorker(conns),
 		provider.WithOfflineDelay(cfg.offlineDelay),
 		provider.WithConnectivityCheckOnlineInterval(time.Minute),
 		provider.WithResumeCycle(cfg.resume),
@@ -239,7 +261,7 @@ func runC14Provider(s *sim.Sim, buffer bool) {
 			}
 		}
 	}
-	s.Summary["cfg"] = fmt.Sprintf("%+v peers=%d buffered=%v", cfg, n, buffer)
+	s.Summary["cfg"] = fmt.Sprintf("%+v peers=%d buffered=%v tight=%v conns=%d", cfg, n, buffer, tight, conns)
 
 	type api interface {
 		StartProviding(force bool, keys ...mh.Multihash) error
@@ -314,6 +336,12 @@ func runC14Provider(s *sim.Sim, buffer bool) {
 		}
 		if buffer && len(s.ParkedKind("ds")) > 0 {
 			s.Count("probe_close_batch_in_worker")
+		}
+		if tight && addProv {
+			s.Count("probe_close_tight_batch_inflight")
+			if anon.pendingRecipients(n) > conns {
+				s.Count("probe_close_recipients_exceed_conns")
+			}
 		}
 	}
 	if buffer {
